@@ -195,7 +195,18 @@ fn const_value_json<'tcx>(
       None
     }
     mir::ConstValue::ZeroSized => None,
-    mir::ConstValue::Slice { .. } => {
+    mir::ConstValue::Slice { alloc_id, meta } => {
+      // &[integer] / &[newtype-of-integer]: dump the elements
+      if let ty::Ref(_, inner, _) = ty.kind() {
+        if let ty::Slice(el) = inner.kind() {
+          if *el != tcx.types.u8 {
+            if let Some(mir::interpret::GlobalAlloc::Memory(a)) = tcx.try_get_global_alloc(alloc_id) {
+              let arr_ty = Ty::new_array(tcx, *el, meta);
+              return alloc_json(tcx, arr_ty, a.inner(), 0);
+            }
+          }
+        }
+      }
       if let ty::Ref(_, inner, _) = ty.kind() {
         if inner.is_str() {
           let b = val.try_get_slice_bytes_for_diagnostics(tcx)?;
@@ -273,6 +284,27 @@ fn alloc_json<'tcx>(
         return None;
       }
       Some(read_int(&bytes[off..off + esz], true).to_string())
+    }
+    ty::Ref(_, inner, _) if matches!(inner.kind(), ty::Slice(e) if *e != tcx.types.u8) => {
+      // fat pointer to a slice of integers / integer newtypes stored inside an allocation
+      let ty::Slice(el) = inner.kind() else { return None };
+      if off + 16 > bytes.len() {
+        return None;
+      }
+      let mut target = None;
+      for (o, prov) in alloc.provenance().ptrs().iter() {
+        if o.bytes() as usize == off {
+          target = Some(prov.alloc_id());
+        }
+      }
+      let aid = target?;
+      let addend = uint_str(&bytes[off..off + 8]).parse::<usize>().ok()?;
+      let len = uint_str(&bytes[off + 8..off + 16]).parse::<u64>().ok()?;
+      if let Some(mir::interpret::GlobalAlloc::Memory(a)) = tcx.try_get_global_alloc(aid) {
+        let arr_ty = Ty::new_array(tcx, *el, len);
+        return alloc_json(tcx, arr_ty, a.inner(), addend);
+      }
+      None
     }
     ty::Ref(_, inner, _) if inner.is_str() || matches!(inner.kind(), ty::Slice(e) if *e == tcx.types.u8) => {
       // a fat pointer stored inside an allocation (e.g. a promoted `&BROTLI` where BROTLI: &str)
